@@ -107,17 +107,25 @@ def run(chk):
             names = tuple(names) + ('norm',)       # no parameter batch here: the normalisation term can be part of it
 
         def go(eq_type=eq_type, names=names):
-            res = []
+            res, undecided = [], None
             for rep, wv in (("float", 2.0), ("int", 2), ("0-d array", AT((), np.array(Poly.const(2), dtype=object))),
                             ("length-one array", AT((1,), np.array([Poly.const(2)], dtype=object)))):
                 S = SingleLoss(E, eq_type, 'PINN', d=2, m_u=2, m_res=2, terms=names, weight_value=wv)
-                total, terms = S.evaluate()
+                try:
+                    total, terms = S.evaluate()
+                except Top as ex:
+                    if not res:
+                        raise
+                    undecided = undecided or ex    # a definite difference among the other representations is still reported
+                    continue
                 scalar_of(total, f"total (weights given as {rep})")       # the total is a scalar whatever the representation
                 res.append((rep, {k: canon(scalar_of(v, f"{k} (weights given as {rep})")) for k, v in terms.items()}))
             for rep, other in res[1:]:
                 for k in res[0][1]:
                     if res[0][1][k] != other[k]:
                         raise Violation(k, f"with the weight given as {rep}: {other[k]}", f"as a Python float: {res[0][1][k]}")
+            if undecided is not None:
+                raise undecided
             return "identical scalar formulas for float, int, 0-d and length-one array weights"
         site = {"ODE": "jinns.loss._LossODE:LossODE", "statio_PDE": "jinns.loss._LossPDE:LossPDEStatio",
                 "nonstatio_PDE": "jinns.loss._LossPDE:LossPDENonStatio"}[eq_type] + ".evaluate"
